@@ -1,2 +1,454 @@
-// stub created by the lead so that the workspace always loads; replace it with the check
-fn main() {}
+//! C01 — wire decoding is total: any bytes give Ok or Err, never a panic or hang, in linear work;
+//! no decoded name exceeds 255 octets, no label exceeds 63.
+//!
+//! E-ENUM over four exhaustive families (see `c01::families`), each string decoded by the real
+//! entry points (`Message::from_vec`, `Request::from_bytes`, `DnsResponse::from_buffer`,
+//! `signed_bitmessage_to_buf`, `Record::read`, `Name::read`, `RData::read` for every type code).
+//!
+//! Oracle: (a) the call returns (panics are caught and keyed by source location); (b) decoder
+//! work (hook counter: one tick per `Name` state-machine step and per `BinDecoder::{pop,read_slice}`)
+//! is at most C1*|b| + C0, and in the growth families work per octet does not keep growing with n;
+//! (c) every `Name` in a decoded value has <= 255 wire octets and labels <= 63, measured from the
+//! label iterator.
+
+use std::sync::Mutex;
+
+use c01::alphabet::{rdata_alphabet, record_alphabet};
+use c01::entry::{decode, Entry};
+use c01::families::{self, HEADER_SHAPES, S};
+use c01::seeds;
+use serde_json::{json, Value};
+use vcore::{catch, fnv64, hex, Ctx, Local};
+
+/// Work bound. Derivation (recorded in the evidence): a name has at most 127 labels (4 ticks
+/// each) and — once pointer chasing is bounded by the number of labels a name can have — at most
+/// 128 pointer hops (3 ticks each) plus 3 ticks for the root: 895 ticks. The densest way to
+/// reference a name is a 2-octet pointer in a 6-octet question: 149.2 ticks per octet. Everything
+/// else the decoder does costs <= 2 ticks per octet. C1 = 256 leaves a factor 1.7 above that
+/// worst *linear* case; the honest seed corpus stays below 8 ticks per octet (measured each run).
+const C1: u64 = 256;
+const C0: u64 = 4096;
+
+fn bound(len: usize) -> u64 {
+    C1 * len as u64 + C0
+}
+
+#[derive(Default)]
+struct Tally {
+    ok: u64,
+    errs: Vec<(&'static str, u64)>,
+    nontrivial: u64,
+    max_ticks: u64,
+}
+
+impl Tally {
+    #[inline]
+    fn err(&mut self, e: &'static str) {
+        for x in self.errs.iter_mut() {
+            if std::ptr::eq(x.0, e) || x.0 == e {
+                x.1 += 1;
+                return;
+            }
+        }
+        self.errs.push((e, 1));
+    }
+    fn flush(self, fam: &str, class: &str, l: &mut Local) {
+        let mut add = |k: String, n: u64| {
+            if n > 0 {
+                *l.outcomes.entry(k).or_insert(0) += n;
+            }
+        };
+        add(format!("{fam}:{class}:accepted"), self.ok);
+        add(format!("{fam}:nontrivial-by-construction"), self.nontrivial);
+        for (e, n) in self.errs {
+            add(format!("err:{e}"), n);
+            add(format!("{fam}:{class}:rejected"), n);
+        }
+    }
+}
+
+/// Decode one input through one entry point and judge it. `hashed`: count the input in the
+/// hash-set based `distinct_nontrivial` (otherwise it is distinct by construction of the family).
+#[inline]
+fn judge(entry: Entry, buf: &[u8], work_key: Option<&str>, hashed: bool, t: &mut Tally, l: &mut Local, case: &dyn Fn() -> Value) {
+    l.eval();
+    match catch(|| decode(entry, buf)) {
+        Err(p) => l.violation(&format!("panic:{}", vcore::short_loc(&p.loc)), &format!("{} panicked: {}", entry.class(), p.msg), case),
+        Ok(o) => {
+            if o.ticks > t.max_ticks {
+                t.max_ticks = o.ticks;
+            }
+            if let Some(k) = work_key {
+                if o.ticks > bound(buf.len()) {
+                    l.violation(
+                        k,
+                        &format!("{} decoder ticks for {} octets (bound {}*len+{})", o.ticks, buf.len(), C1, C0),
+                        case,
+                    );
+                }
+            }
+            if let Some((clause, what)) = &o.name_violation {
+                l.violation(&format!("name-limit:{clause}:{}", entry.class()), &format!("decoded value holds a name with {what}"), case);
+            }
+            let nontrivial = o.ok || o.err != "InsufficientBytes";
+            if o.ok {
+                t.ok += 1;
+            } else {
+                t.err(o.err);
+            }
+            if nontrivial {
+                if hashed {
+                    l.nontrivial(fnv64(buf) ^ fnv64(entry.label().as_bytes()).rotate_left(17));
+                } else {
+                    t.nontrivial += 1;
+                }
+            }
+        }
+    }
+}
+
+fn byte_case(entry: Entry, buf: &[u8]) -> Value {
+    json!({"entry": entry.label(), "hex": hex::enc(buf)})
+}
+
+// ------------------------------------------------------------------------------------------
+// families 1 and 2: blocks of strings behind a fixed prefix
+
+#[derive(Clone)]
+struct Block {
+    fam: &'static str,
+    entry: Entry,
+    /// bytes before the enumerated string: a header shape, or the pointer-target prefix
+    prefix: Vec<u8>,
+    /// None = all 256 octet values
+    alphabet: Option<&'static [u8]>,
+    len: usize,
+    first: u64,
+    count: u64,
+}
+
+fn blocks_for(fam: &'static str, entry: Entry, prefix: &[u8], alphabet: Option<&'static [u8]>, max_len: usize, out: &mut Vec<Block>) {
+    let k = alphabet.map(|a| a.len() as u64).unwrap_or(256);
+    let per_block: u64 = 1 << 16;
+    for len in 0..=max_len {
+        let total = k.pow(len as u32);
+        let mut first = 0;
+        while first < total {
+            let count = per_block.min(total - first);
+            out.push(Block { fam, entry, prefix: prefix.to_vec(), alphabet, len, first, count });
+            first += count;
+        }
+    }
+}
+
+fn run_block(b: &Block, l: &mut Local) {
+    let mut buf = b.prefix.clone();
+    let plen = buf.len();
+    let mut t = Tally::default();
+    let work_key = format!("work-bound:{}", b.entry.class());
+    let hashed = b.len <= 2;
+    for i in b.first..b.first + b.count {
+        buf.truncate(plen);
+        match b.alphabet {
+            Some(a) => families::string_at(a, b.len, i, &mut buf),
+            None => families::bytes_at(b.len, i, &mut buf),
+        }
+        let e = b.entry;
+        judge(e, &buf, Some(&work_key), hashed, &mut t, l, &|| byte_case(e, &buf));
+    }
+    if b.first == 0 && b.len == 2 {
+        l.sample(json!({"family": b.fam, "entry": b.entry.label(), "prefix_len": plen, "len": b.len, "strings": b.count}));
+    }
+    t.flush(b.fam, b.entry.class(), l);
+}
+
+fn build_blocks(thorough: bool) -> Vec<Block> {
+    let mut v = vec![];
+    let codes = families::rdata_type_codes();
+    let distinct = families::distinct_decoder_codes();
+    let pfx12 = families::pointer_target_prefix(12);
+    let pfx3ffe = families::pointer_target_prefix(0x3ffe);
+
+    // family 1: every byte string of length 0..=L
+    let l1 = if thorough { 3 } else { 2 };
+    for h in HEADER_SHAPES.iter() {
+        for e in [Entry::Message, Entry::Request, Entry::TsigTbs] {
+            blocks_for("f1", e, &h.bytes(), None, l1, &mut v);
+        }
+    }
+    for e in [Entry::Message, Entry::Request, Entry::Response, Entry::TsigTbs, Entry::Record { off: 0 }, Entry::Name { off: 0 }] {
+        blocks_for("f1", e, &[], None, l1, &mut v);
+    }
+    for e in [Entry::Record { off: 12 }, Entry::Name { off: 12 }] {
+        blocks_for("f1", e, &pfx12, None, l1, &mut v);
+    }
+    for &c in &codes {
+        blocks_for("f1", Entry::Rdata { rtype: c, off: 0 }, &[], None, l1, &mut v);
+    }
+    for &c in &distinct {
+        blocks_for("f1", Entry::Rdata { rtype: c, off: 12 }, &pfx12, None, l1, &mut v);
+    }
+
+    // family 2: every string over S
+    let (l_body, l_rdata, l_name) = if thorough { (7, 6, 7) } else { (6, 5, 6) };
+    for h in HEADER_SHAPES.iter() {
+        for e in [Entry::Message, Entry::Request, Entry::TsigTbs] {
+            blocks_for("f2", e, &h.bytes(), Some(&S), l_body, &mut v);
+        }
+    }
+    for &c in &codes {
+        blocks_for("f2", Entry::Rdata { rtype: c, off: 0 }, &[], Some(&S), l_rdata, &mut v);
+    }
+    for &c in &distinct {
+        blocks_for("f2", Entry::Rdata { rtype: c, off: 12 }, &pfx12, Some(&S), l_rdata, &mut v);
+    }
+    blocks_for("f2", Entry::Name { off: 0 }, &[], Some(&S), l_name, &mut v);
+    blocks_for("f2", Entry::Name { off: 12 }, &pfx12, Some(&S), l_name, &mut v);
+    blocks_for("f2", Entry::Name { off: 0x3ffe }, &pfx3ffe, Some(&S), l_name, &mut v);
+    blocks_for("f2", Entry::Record { off: 0 }, &[], Some(&S), l_name, &mut v);
+    blocks_for("f2", Entry::Record { off: 12 }, &pfx12, Some(&S), l_name, &mut v);
+    v
+}
+
+// ------------------------------------------------------------------------------------------
+// family 3: edit neighbourhoods
+
+#[derive(Clone)]
+struct EditItem {
+    tag: String,
+    entry: Entry,
+    prefix: Vec<u8>,
+    seed: Vec<u8>,
+    pairs: bool,
+}
+
+fn run_edit_item(it: &EditItem, l: &mut Local) {
+    let mut t = Tally::default();
+    let work_key = format!("work-bound:{}", it.entry.class());
+    let e = it.entry;
+    let mut buf = it.prefix.clone();
+    let plen = buf.len();
+    // the seed itself must be accepted (otherwise the neighbourhood is not centred on a valid input)
+    buf.extend_from_slice(&it.seed);
+    let honest = catch(|| decode(e, &buf));
+    match &honest {
+        Ok(o) if o.ok => l.outcome("f3:seed-accepted"),
+        Ok(o) => {
+            // Request only takes QDCOUNT=1 messages, DnsResponse only responses, the TSIG parser only signed ones
+            l.outcome(&format!("f3:seed-rejected:{}:{}", e.class(), o.err));
+        }
+        Err(_) => {}
+    }
+    let n = families::edits(&it.seed, it.pairs, |s| {
+        buf.truncate(plen);
+        buf.extend_from_slice(s);
+        judge(e, &buf, Some(&work_key), true, &mut t, l, &|| byte_case(e, &buf));
+    });
+    if l.samples.len() < 2 {
+        l.sample(json!({"family": "f3", "seed": it.tag, "entry": e.label(), "seed_len": it.seed.len(), "edits": n}));
+    }
+    t.flush("f3", e.class(), l);
+}
+
+// ------------------------------------------------------------------------------------------
+// family 4: growth
+
+const GROWTH_ENTRIES: [Entry; 4] = [Entry::Message, Entry::Request, Entry::Response, Entry::TsigTbs];
+
+/// Runs the whole size sweep of one (family, qd1, entry) and judges the curve. Returns the
+/// (len, ticks) points.
+fn run_growth(family: &str, qd1: bool, entry: Entry, l: &mut Local) -> Vec<(u32, usize, u64)> {
+    let mut t = Tally::default();
+    let mut pts: Vec<(u32, usize, u64)> = vec![];
+    let key = format!("work-superlinear:{family}");
+    for n in families::growth_sizes(family, qd1) {
+        let Some(buf) = families::growth(family, n, qd1) else { continue };
+        let case = || json!({"entry": entry.label(), "family": family, "n": n, "qd1": qd1, "len": buf.len()});
+        let before = t.max_ticks;
+        t.max_ticks = 0;
+        judge(entry, &buf, Some(&key), true, &mut t, l, &case);
+        pts.push((n, buf.len(), t.max_ticks));
+        t.max_ticks = t.max_ticks.max(before);
+    }
+    // curve criterion: work per octet at any size must not exceed 4x (+16) the largest work per
+    // octet seen on inputs of at most 4 KiB
+    let base = pts.iter().filter(|p| p.1 <= 4096).map(|p| p.2 as f64 / p.1 as f64).fold(0.0f64, f64::max);
+    for (n, len, ticks) in &pts {
+        let r = *ticks as f64 / *len as f64;
+        if *len > 4096 && r > 4.0 * base + 16.0 {
+            l.violation(
+                &key,
+                &format!("work per octet grows with n: {:.1} ticks/octet at {} octets vs at most {:.1} up to 4 KiB", r, len, base),
+                || json!({"entry": entry.label(), "family": family, "n": n, "qd1": qd1, "len": len}),
+            );
+            break;
+        }
+    }
+    t.flush("f4", entry.class(), l);
+    pts
+}
+
+// ------------------------------------------------------------------------------------------
+
+fn replay(ctx: &Ctx, case: &Value) {
+    ctx.with_local(|l| {
+        let entry = Entry::parse(case["entry"].as_str().unwrap_or("message")).unwrap_or(Entry::Message);
+        if let Some(fam) = case["family"].as_str() {
+            let fam: &str = families::GROWTH_FAMILIES.iter().find(|f| **f == fam).copied().unwrap_or("pointer-chain");
+            run_growth(fam, case["qd1"].as_bool().unwrap_or(false), entry, l);
+        } else {
+            let buf = hex::dec(case["hex"].as_str().unwrap_or(""));
+            let mut t = Tally::default();
+            let k = format!("work-bound:{}", entry.class());
+            judge(entry, &buf, Some(&k), true, &mut t, l, &|| byte_case(entry, &buf));
+        }
+    });
+}
+
+fn main() {
+    let ctx = Ctx::from_args("C01", "exploration");
+    let thorough = !ctx.quick();
+
+    if let Some((_key, case)) = ctx.replay_case() {
+        replay(&ctx, &case);
+        ctx.finish(false);
+    }
+
+    ctx.set_rule(
+        "E-ENUM, four families, every element decoded by the real entry points (Message::from_vec, Request::from_bytes, \
+         DnsResponse::from_buffer, signed_bitmessage_to_buf, Record::read, Name::read, RData::read for 89 type codes). \
+         f1: ALL byte strings of length 0..2 (quick) / 0..3 (thorough) as whole input, as body after 14 header shapes, as \
+         record/name/RDATA at offset 0 and at offset 12 behind pointer-target octets. f2: ALL strings over S={00,01,02,03,04,0c,\
+         3f,40,7f,80,bf,c0,c1,ff} of length <=6/5/6 (quick: body/RDATA/name) or <=7/6/7 (thorough), names also at offset 0x3ffe. \
+         f3: complete single-edit neighbourhoods (every truncation, every octet x all 256 values, insert/delete over S, every \
+         16-bit window set to 8 boundary values; thorough: all pairs of S-substitutions on messages) of a seed corpus of valid \
+         messages / records / RDATA / names covering every RData variant, EDNS, TSIG, compression. f4: 17 growth families for \
+         n = 1..64, 128, 256, ... up to the largest n that fits 65,535 octets. Oracle: returns (no panic); decoder ticks <= \
+         256*len+4096 and (f4) ticks/len at any size <= 4x the maximum seen up to 4 KiB; every decoded Name <= 255 octets, \
+         labels <= 63 (from the label iterator). distinct_nontrivial = distinct (entry, input) digests that were accepted or \
+         rejected with an error other than InsufficientBytes, hash-counted for strings of length <= 2, f3 and f4; longer f1/f2 \
+         strings are distinct by construction and counted in outcome_classes['f*:nontrivial-by-construction'].",
+    );
+    ctx.assume("the tick hook (hickory_proto::verif) counts every Name::read state-machine step and every BinDecoder::{pop,read_slice}; work outside those primitives (allocation, copying of already-read slices) is not counted");
+    ctx.assume("wall-clock time is not judged, only the deterministic work counter; a >30 s case is reported by the watchdog as hang");
+    ctx.set(
+        "work_bound",
+        json!({"c1": C1, "c0": C0, "derivation": "max 127 labels x 4 ticks + 128 hops x 3 ticks + 3 = 895 ticks per name, densest reference = 6-octet question => 149.2 ticks/octet for the worst linear decoder; C1=256 is 1.7x that. Honest seeds: see honest_max_ticks_per_octet"}),
+    );
+
+    let entries = rdata_alphabet(thorough);
+    let recs = record_alphabet(&entries, 0);
+    let msg_seeds = seeds::message_seeds(&entries, &recs, thorough);
+
+    // calibration: honest seeds, every message-level entry point
+    let mut honest_max = 0.0f64;
+    let mut honest_ok = 0u64;
+    for s in &msg_seeds {
+        let o = decode(Entry::Message, &s.bytes);
+        if !o.ok {
+            ctx.machinery_failure(&format!("honest seed {} rejected by Message::from_vec: {}", s.tag, o.err));
+        } else {
+            honest_ok += 1;
+        }
+        honest_max = honest_max.max(o.ticks as f64 / s.bytes.len() as f64);
+        if o.ticks > bound(s.bytes.len()) / 4 {
+            ctx.machinery_failure(&format!("work bound is not generous: honest seed {} needs {} ticks for {} octets", s.tag, o.ticks, s.bytes.len()));
+        }
+    }
+    ctx.set("honest_seeds", json!(honest_ok));
+    ctx.set("honest_max_ticks_per_octet", json!((honest_max * 100.0).round() / 100.0));
+
+    // families 1 + 2
+    let blocks = build_blocks(thorough);
+    ctx.set("f1_f2_blocks", json!(blocks.len()));
+    ctx.set("f1_f2_strings", json!(blocks.iter().map(|b| b.count).sum::<u64>()));
+    ctx.par_run(blocks.len() as u64, 4, |i, l| run_block(&blocks[i as usize], l));
+
+    // family 3
+    let mut items: Vec<EditItem> = vec![];
+    for s in &msg_seeds {
+        for e in [Entry::Message, Entry::Request, Entry::Response, Entry::TsigTbs] {
+            items.push(EditItem { tag: s.tag.clone(), entry: e, prefix: vec![], seed: s.bytes.clone(), pairs: false });
+        }
+    }
+    let pfx12 = families::pointer_target_prefix(12);
+    for (tag, t, w) in seeds::rdata_seeds(&entries) {
+        items.push(EditItem { tag: tag.clone(), entry: Entry::Rdata { rtype: t, off: 0 }, prefix: vec![], seed: w.clone(), pairs: thorough });
+        items.push(EditItem { tag, entry: Entry::Rdata { rtype: t, off: 12 }, prefix: pfx12.clone(), seed: w, pairs: false });
+    }
+    for (tag, w) in seeds::record_seeds(&entries) {
+        items.push(EditItem { tag: tag.clone(), entry: Entry::Record { off: 0 }, prefix: vec![], seed: w.clone(), pairs: false });
+        items.push(EditItem { tag, entry: Entry::Record { off: 12 }, prefix: pfx12.clone(), seed: w, pairs: false });
+    }
+    for (tag, w) in seeds::name_seeds() {
+        items.push(EditItem { tag: tag.clone(), entry: Entry::Name { off: 0 }, prefix: vec![], seed: w.clone(), pairs: thorough && w.len() < 100 });
+        items.push(EditItem { tag, entry: Entry::Name { off: 12 }, prefix: pfx12.clone(), seed: w, pairs: false });
+    }
+    if thorough {
+        // pairs of S-substitutions on every message seed of at most 160 octets
+        for s in &msg_seeds {
+            if s.bytes.len() <= 160 {
+                items.push(EditItem { tag: format!("pairs:{}", s.tag), entry: Entry::Message, prefix: vec![], seed: s.bytes.clone(), pairs: true });
+            }
+        }
+    }
+    ctx.set("f3_seeds", json!({"messages": msg_seeds.len(), "items": items.len()}));
+    ctx.par_run(items.len() as u64, 1, |i, l| run_edit_item(&items[i as usize], l));
+
+    // family 4
+    let mut gitems: Vec<(&'static str, bool, Entry)> = vec![];
+    for f in families::GROWTH_FAMILIES.iter() {
+        for qd1 in [false, true] {
+            if families::growth(f, 1, qd1).is_none() {
+                continue;
+            }
+            for e in GROWTH_ENTRIES {
+                gitems.push((f, qd1, e));
+            }
+        }
+    }
+    let curves: Mutex<Vec<Value>> = Mutex::new(vec![]);
+    ctx.par_run(gitems.len() as u64, 1, |i, l| {
+        let (f, qd1, e) = gitems[i as usize];
+        let pts = run_growth(f, qd1, e, l);
+        if e == Entry::Message || (e == Entry::Request && qd1) {
+            let pick: Vec<Value> = pts
+                .iter()
+                .filter(|p| p.0 == 1 || p.0 == 64 || p.0 == 1024 || p.0 == 4096 || Some(p) == pts.last())
+                .map(|p| json!({"n": p.0, "len": p.1, "ticks": p.2, "ticks_per_octet": ((p.2 as f64 / p.1 as f64) * 10.0).round() / 10.0}))
+                .collect();
+            curves.lock().unwrap().push(json!({"family": f, "qd1": qd1, "entry": e.label(), "points": pick}));
+        }
+    });
+    let mut cv = curves.into_inner().unwrap();
+    cv.sort_by_key(|v| format!("{}{}{}", v["family"], v["qd1"], v["entry"]));
+    ctx.set("f4_curves", json!(cv));
+
+    // vacuity
+    let mut err_variants = 0;
+    for name in [
+        "InsufficientBytes", "IncorrectRDataLengthRead", "PointerNotPriorToLabel", "LabelBytesTooLong", "UnrecognizedLabelCode",
+        "DomainNameTooLong", "LabelOverlapsWithOther", "BadQueryCount", "InvalidEmptyRecord", "RecordNotInAdditionalSection",
+        "EdnsNameNotRoot", "DuplicateEdns", "RecordAfterSig", "NsecBitmapOutOfBounds", "SvcParamsOutOfOrder", "UnknownRecordTypeValue",
+        "DnsKeyProtocolNot3", "UnknownDigestAlgorithm", "CaaTagInvalid", "Utf8",
+    ] {
+        if ctx.outcome_count(&format!("err:{name}")) > 0 {
+            err_variants += 1;
+        }
+    }
+    ctx.set("distinct_error_variants_seen", json!(err_variants));
+    if err_variants < 5 {
+        ctx.machinery_failure("vacuous run: fewer than 5 distinct decoder error variants were exercised");
+    }
+    for k in [
+        "f1:message:accepted", "f1:request:accepted", "f1:rdata:accepted", "f1:name:accepted", "f1:record:accepted",
+        "f2:message:accepted", "f2:rdata:accepted", "f2:name:accepted", "f3:message:accepted", "f3:request:accepted",
+        "f3:tsig-tbs:accepted", "f3:rdata:accepted", "f3:record:accepted", "f4:message:accepted", "f3:message:rejected",
+        "f3:seed-accepted",
+    ] {
+        if ctx.outcome_count(k) == 0 {
+            ctx.machinery_failure(&format!("vacuous run: outcome class {k} never occurred"));
+        }
+    }
+    ctx.finish(true);
+}
